@@ -56,6 +56,8 @@ MBp   == Mk(<<"o2", "o1">>, <<"s2", "s1">>, <<<<10, 20>>, <<30, 40>>>>, NoMd, No
 MBs   == Mk(<<"o2", "o1">>, <<"s2", "s1">>, <<<<10, 20>>, <<30, 40>>>>, NoMd, SMD2, "")       \* + sample metadata
 MD0   == Mk(<<"o3", "o4">>, <<"s3", "s4">>, <<<<5, 0>>, <<0, 6>>>>, NoMd, NoMd, "")            \* disjoint on both axes
 MDm   == Mk(<<"o3", "o4">>, <<"s3", "s4">>, <<<<5, 0>>, <<0, 6>>>>, OMDb, SMD2, "")
+MAo   == Mk(O2, S2, <<<<1, 2>>, <<3, 4>>>>, OMD2, NoMd, "")       \* metadata on one axis only
+MAs   == Mk(O2, S2, <<<<1, 2>>, <<3, 4>>>>, NoMd, SMD2, "")
 MN    == Mk(<<"o1">>, <<"s2">>, <<<<7>>>>, NoMd, NoMd, "")                                      \* nested
 MC0   == Mk(<<"o4">>, <<"s1", "s4">>, <<<<9, 1>>>>, NoMd, NoMd, "")
 ME    == Mk(<<"o3", "o4">>, <<"s2", "s1">>, <<<<5, 6>>, <<7, 0>>>>, OMDb, NoMd, "")            \* disjoint obs, permuted samples
